@@ -27,8 +27,8 @@ type C02Plan struct {
 	AlwaysAbs int     `json:"always_abs,omitempty"` // interface option AlwaysSetAbsoluteExpiry: now + this many seconds at open time (0 = off)
 	AlwaysRel int     `json:"always_rel,omitempty"` // interface option AlwaysSetRelativateExpiry in seconds (0 = off)
 	IterFault int     `json:"iter_fault,omitempty"` // >0: separate scenario: the backend query ends with an error after n-1 records
-	FlushAPI  bool    `json:"flush_api,omitempty"` // the delayed-write cache is flushed with Interface.FlushCache instead of by stopping its writer
-	Slow      int     `json:"slow,omitempty"` // slow-consumer scenario: number of records queried by a consumer that stalls after the first one
+	FlushAPI  bool    `json:"flush_api,omitempty"`  // the delayed-write cache is flushed with Interface.FlushCache instead of by stopping its writer
+	Slow      int     `json:"slow,omitempty"`       // slow-consumer scenario: number of records queried by a consumer that stalls after the first one
 }
 
 // C02Op is one interface operation.
@@ -182,16 +182,16 @@ func genC02(rng *rand.Rand, tier string) *C02Plan {
 }
 
 type c02State struct {
-	p     *C02Plan
-	rc    *simkit.RunCtx
-	model map[string]*mrec
-	iface *database.Interface
-	dir   string
+	p          *C02Plan
+	rc         *simkit.RunCtx
+	model      map[string]*mrec
+	iface      *database.Interface
+	dir        string
 	stopWriter context.CancelFunc
 	bypassed   bool
 	alwaysAbs  int64
 	writerDone chan struct{}
-	model2     map[string]string // second database: key -> nonce
+	model2     map[string]string        // second database: key -> nonce
 	lastObj    map[string]record.Record // the record object most recently handed to put/put-new for a key
 	lastObjM   map[string]*mrec         // ... and what it holds
 }
